@@ -58,6 +58,9 @@ def bases(shape):
 def f64_limbs(a):
     """Bit pattern of each float64 as three integers (22 + 21 + 21 bits): exact, comparison by equality in TLC."""
     out = []
+    a = np.asarray(a)
+    if a.dtype.kind == 'c':
+        a = np.stack((a.real, a.imag), axis=-1)                        # complex: real and imaginary bit patterns
     for v in np.asarray(a, dtype=np.float64).ravel():
         (q,) = struct.unpack('<Q', struct.pack('<d', float(v)))
         out.append([int(q >> 42), int((q >> 21) & 0x1FFFFF), int(q & 0x1FFFFF)])
@@ -97,6 +100,7 @@ class Gate:
         self.rank = {}
         self.log = []
         self.free = False
+        self.cplx = False
 
     @staticmethod
     def wsig(w):
@@ -124,6 +128,8 @@ class Gate:
             self.phase[th] = 'inside'
             self.cv.notify_all()
         val = u * v.grad[0] * w['c'] + 3. * u * v                      # non-symmetric, reads the shared dictionary
+        if self.cplx:
+            val = val * (1.0 + 2.0j) + 0.5j * u * v
         with self.cv:
             while not self.free and th not in self.go_inside:
                 self.cv.wait()
@@ -139,7 +145,7 @@ def _thread_no(th):
     return int(m.group(1)) if m else 0
 
 
-def run_schedule(shape, nthreads, schedule, stall=0, timeout=6.0):
+def run_schedule(shape, nthreads, schedule, stall=0, timeout=6.0, cplx=False):
     """Force `schedule` (list of 1-based worker indices) onto BilinearForm(nthreads).assemble.  Returns the event."""
     import skfem as fem
     ub, vb = bases(shape)
@@ -149,18 +155,21 @@ def run_schedule(shape, nthreads, schedule, stall=0, timeout=6.0):
     ev = {'a': 'ThreadedRun', 'shape': shape, 'NU': NU, 'NV': NV, 'NTH': nthreads, 'sched': list(schedule),
           'stall': stall, 'err': ''}
     # serial reference (same callback, no gating)
+    fkw = {'dtype': np.complex128} if cplx else {}
     g0 = Gate(ub, vb)
     g0.free = True
-    serial = fem.BilinearForm(g0.form)._assemble(ub, vb, c=coef)
+    g0.cplx = cplx
+    serial = fem.BilinearForm(g0.form, **fkw)._assemble(ub, vb, c=coef)
     before = checksum(operand_arrays(ub, vb, coef))
     ev['ssig'] = g0.log[0][4:7] if g0.log else ['', 0, 0]       # the parameter dictionary as serial assembly sees it
 
     gate = Gate(ub, vb)
+    gate.cplx = cplx
     out = {}
 
     def asm():
         try:
-            out['res'] = fem.BilinearForm(gate.form, nthreads=nthreads)._assemble(ub, vb, c=coef)
+            out['res'] = fem.BilinearForm(gate.form, nthreads=nthreads, **fkw)._assemble(ub, vb, c=coef)
         except BaseException as exc:          # observation
             out['err'] = type(exc).__name__
         with gate.cv:
@@ -237,6 +246,7 @@ def run_schedule(shape, nthreads, schedule, stall=0, timeout=6.0):
     ev['srows'] = [int(v) for v in serial[0][0]]
     ev['scols'] = [int(v) for v in serial[0][1]]
     ev['sdata'] = f64_limbs(serial[1])
+    ev['cplx'] = int(cplx)
     ev['sshp'] = [int(serial[2][0]), int(serial[2][1])]
     return ev
 
@@ -248,7 +258,7 @@ def execute(rec):
     if _TIMEOUTS[0] >= 5:
         # the assembler hangs under forced schedules: do not spend the budget on more of the same
         return []
-    ev = run_schedule(rec['shape'], rec['nthreads'], rec['sched'], rec.get('stall', 0))
+    ev = run_schedule(rec['shape'], rec['nthreads'], rec['sched'], rec.get('stall', 0), cplx=bool(rec.get('cplx')))
     if ev['err'] == 'Timeout':
         _TIMEOUTS[0] += 1
     return [ev]
@@ -339,7 +349,7 @@ def random_schedules(tier, seed):
         sched = [int(v) for v in rng.permutation(toks)]
         stall = int(rng.integers(1, len(sched) + 1)) if k % 3 == 0 else 0
         recs.append({'driver': 'threads', 'shape': shape, 'nthreads': nth, 'sched': sched, 'stall': stall,
-                     'family': 'random'})
+                     'family': 'random', 'cplx': int(k % 5 == 4)})
     return recs
 
 
